@@ -225,7 +225,8 @@ class _G:
 
 
 def aimed_gc_base(rng, i, policies, stats):
-    """two hand-made base histories around the file GC (None when i selects neither):
+    """three hand-made base histories around the file GC (None when i selects none of them):
+    i % 6 == 0: a delete that frees files followed by the delete of an idle empty queue;
     i % 6 == 2: the GC's own position records roll the writer over (cursor r bytes before a file end,
                 several empty queues);
     i % 6 == 4: one GC pass releases two or more files at once, and a later file holds calls that
@@ -251,6 +252,19 @@ def aimed_gc_base(rng, i, policies, stats):
             cmds.append("append =q1 - 3:3")
         stats["gc_roll_bases"] = stats.get("gc_roll_bases", 0) + 1
         return _G(cmds, ["=q%d" % k for k in range(nq)])
+    if i % 6 == 0:
+        # delete a queue that alone pins the oldest files, then delete (or empty) idle EMPTY queues while files are
+        # still pending collection: every position record a GC pass writes must describe the state AFTER the call
+        F = mrl.FILE
+        cmds = ["open %s" % pol, "create =x", "create =y", "create =z", "append =z - 7:1", "truncate =z 0"]
+        for k in range(rng.randrange(3, 6)):
+            cmds.append("append =x - %d:%d" % (rng.randrange(F // 3, F // 2), 10 + k))
+        cmds.append(rng.choice(["delete =x", "truncate =x 99"]))
+        cmds.append(rng.choice(["delete =y", "delete =z", "delete =y"]))
+        if rng.random() < 0.5:
+            cmds.append("create =y2")
+        stats["two_deletes_bases"] = stats.get("two_deletes_bases", 0) + 1
+        return _G(cmds, ["=x", "=y", "=z"])
     if i % 6 == 4:
         F = mrl.FILE
         big = lambda: rng.randrange(F // 3, F // 2)
@@ -573,6 +587,9 @@ class C04(TwoPass):
                    "every position later assigned by an automatic append, also after restarts and crash recovery, must be above it, and appended positions strictly increase")
 
     def base_history(self, rng, i):
+        a = aimed_gc_base(rng, i, self.policies, self.stats) if i % 6 in (2, 4) else None
+        if a is not None:
+            return a.cmds, a
         g = HistGen(rng, policy=rng.choice(self.policies), nqueues=rng.choice([2, 3, 4]), max_payload=50000)
         g.op_create(); g.op_create()
         for _ in range(rng.randrange(3, 8)):
@@ -654,6 +671,9 @@ class C04(TwoPass):
                 o = obs_of(tr[i])
                 for qn, h in hw.items():
                     q = o.get(show_name(name_bytes(qn)))
+                    if q is None:
+                        vs.append({"msg": "cmd %d (open): queue %s, created and never deleted, is gone: its positions (high-water mark %d) would be handed out again" % (i, qn, h), "shape": "position-regress"})
+                        return vs
                     if q is not None and q["next"] < h:
                         vs.append({"msg": "cmd %d (open): next position of %s is %d, below the high-water mark %d of its incarnation" % (i, qn, q["next"], h), "shape": "position-regress"})
                         return vs
@@ -867,6 +887,20 @@ class C07(PropBase):
                 self.stats["file_end_cases"] = self.stats.get("file_end_cases", 0) + 1
                 return ["open af", "create =q", "append =q - %d:9" % l, "drop", "open af", "append =q - 10:1 3000:2",
                         "append =q - 40000:3", "drop", "open af", "append =q - 5:4", "drop", "open af"]
+        if i % 16 == 7:
+            # what is written AFTER a dropped tail must be read back: the last entry X crosses a block boundary and its
+            # continuation frame never reached the disk (emulated by zero-filling it: the reader ends the log there);
+            # the next entries are written right behind X's orphan First frame - with the size of X's missing bytes
+            # (where a reader that kept X's fragment would glue them) or any other size - then a restart
+            B = mrl.B
+            pad = rng.choice([0, 10, 4000])
+            extra = rng.choice([33, 300, 1000, 5000])
+            c0 = (7 + 12) + (7 + 11 + 1 + 12 + pad)
+            lx = (B - c0 - 7) - 24 + extra
+            ly = rng.choice([extra - 24, extra - 24, 50, 2000])
+            self.stats["dropped_tail_cases"] = self.stats.get("dropped_tail_cases", 0) + 1
+            return ["open af", "create =q", "append =q - %d:1" % pad, "append =q - %d:2" % lx, "drop",
+                    "damage 0 %d x%s" % (B, "00" * (7 + extra)), "open af", "append =q - %d:3" % ly, "append =q - 77:4", "drop", "open af"]
         g = HistGen(rng, policy=rng.choice(self.policies), max_payload=70000)
         g.run(rng.randrange(6, 22), weights={"create": 6, "delete": 2, "append": 70, "truncate": 8, "persist": 2, "restart": 12})
         g.op_restart()
@@ -1029,20 +1063,24 @@ class DamageBase(TwoPass):
         return files
 
 
-def appended_universe(cmds):
-    """every record ever appended, per queue name: set of (pos, len, hash)"""
+def appended_universe(cmds, tr=None):
+    """every record ever appended, per queue name: set of (pos, len, hash).  With a transcript the positions are
+    those the crate acknowledged (after a recovery that dropped records they differ from the specification's)"""
     ref = RefMap()
     uni = {}
-    for cmd in cmds:
+    for i, cmd in enumerate(cmds):
         toks = split_cmd(cmd)
         if toks and toks[0] in MUT:
-            before = {k: v.next for k, v in ref.q.items()}
             res = apply_ref(ref, toks)
-            if toks[0] == "append" and res[0] == "ok" and res[1] is not None:
+            last = res[1] if (toks[0] == "append" and res[0] == "ok") else None
+            if tr is not None and toks[0] == "append" and i < len(tr):
+                m = re.search(r" last=(\d+) ", (outcome_of(tr[i]) or "") + " ")
+                last = int(m.group(1)) if m and " ok" in (outcome_of(tr[i]) or "") else None
+            if toks[0] == "append" and last is not None:
                 n = len(toks) - 3
                 qn = show_name(name_bytes(toks[1]))
                 for k in range(n):
-                    uni.setdefault(qn, set()).add((res[1] - n + 1 + k,) + payload_token_key(toks[3 + k]))
+                    uni.setdefault(qn, set()).add((last - n + 1 + k,) + payload_token_key(toks[3 + k]))
     return uni
 
 
@@ -1143,6 +1181,22 @@ class C08(DamageBase):
             cmds.append("damage 0 %d x%s" % (start + 4, struct.pack("<H", newlen).hex()))
             cmds.append("open af")
             cases.append(("evil%d" % k, cmds))
+        # continued use after a silently dropped tail: the LAST record X crosses a block boundary and its
+        # continuation frame is zero-filled (the reader takes the zero header for the end of the log: X is dropped,
+        # allowed); the next append Y has exactly the size of X's missing bytes; after one more restart nothing
+        # may be glued together: X's leading frame must be discarded when Y's Full frame is met
+        B = mrl.B
+        for k, (lx_extra, pad) in enumerate([(300, 10), (1000, 4000), (33, 0)]):
+            c0 = (7 + 12) + (7 + 11 + 1 + 12 + pad)            # cursor before X: create + first append
+            cap0 = B - c0 - 7                                  # bytes of X's entry held by its First frame
+            lx = cap0 - 24 + lx_extra                          # entry = 12 + 12 + lx: lx_extra bytes spill over
+            missing = lx_extra
+            ly = missing - 24                                  # Y's entry (12 + 12 + ly) == X's missing bytes
+            if ly < 0:
+                continue
+            cmds = ["open af", "create =q", "append =q - %d:1" % pad, "append =q - %d:2" % lx, "drop",
+                    "damage 0 %d x%s" % (B, "00" * (7 + missing)), "open af", "append =q - %d:3" % ly, "drop", "open af"]
+            cases.append(("zerotail%d" % k, cmds))
         # frame-type flips on a continuation frame whose payload is shaped like a WAL entry: if the checksum
         # did not cover the type byte, Last -> Full would turn user bytes into a record (NOT a known finding)
         for k, newtype in enumerate([1, 2]):
@@ -1187,7 +1241,7 @@ class C08(DamageBase):
             if out and ("Panic" in out or "Hang" in out):
                 vs.append({"msg": "open of the damaged directory: %r" % out, "shape": "damage-panic"})
             return vs
-        uni = appended_universe(cmds)
+        uni = appended_universe(cmds, tr)
         for qn, q in obs_of(o).items():
             prev = -1
             for rec in q["recs"]:
